@@ -17,9 +17,10 @@ RULE = ("one evaluation = one multi-thread run: after a completed handshake 2-4 
         "observed sender order")
 ASSUMPTIONS = ["thread interleavings are sampled (yield injection + repetition), never exhausted",
                "the strict peer is the responder double of vf/noisepeer.py (dissononce cipher states, counters only move forward)",
+               "besides the probe-level runs, 24 (quick) / 960 (thorough) runs, with thread switches injected inside the dispatchers, go through the library's real socket and asyncore dispatchers over loopback TCP",
                "senders start after the handshake completed, as applications do (the handshake thread's own writes are covered by C04)"]
 REQUIRED = ["runs", "stanzas_sent", "stanzas_decrypted", "interleaved_runs", "yields_injected", "ping_thread_runs", "entry:top",
-            "entry:sendIq", "entry:below-group"]
+            "entry:sendIq", "entry:below-group", "real_runs", "real_ok", "wire_bytes_equal", "real:socket", "real:asyncore"]
 TIMEOUT = {"quick": 400, "thorough": 3600}
 
 YIELD_FILES = ("yowsup/layers/__init__.py", "yowsup/layers/noise/layer.py", "yowsup/layers/noise/layer_noise_segments.py",
@@ -89,6 +90,9 @@ class BlobIq(object):
 
     def getId(self):
         return self.node["id"]
+
+    def getType(self):
+        return self.node["type"]
 
     def toProtocolTreeNode(self):
         return self.node
@@ -253,6 +257,114 @@ def one_run(acc, seed, tag, d):
     acc.maxi("frame_bytes", max([len(p) for p in srv.received] or [0]))
 
 
+
+def real_run(acc, seed, tag, dispatcher_name, nthreads, per_thread):
+    """Concurrent senders through the library's complete default stack and its real dispatcher over loopback TCP."""
+    from vf import realnet
+    from yowsup.layers.network import YowNetworkLayer
+    from yowsup.layers.auth import YowAuthenticationProtocolLayer
+    r = gen.rng(seed, ID, tag)
+    disp = YowNetworkLayer.DISPATCHER_SOCKET if dispatcher_name == "socket" else YowNetworkLayer.DISPATCHER_ASYNCORE
+    srv = realnet.LoopServer()
+    srv.start()
+    c = realnet.RealClient("c11real_%s" % tag.replace("/", "_"), srv.port, disp)
+    w = {"tag": tag, "dispatcher": dispatcher_name, "threads": nthreads, "per_thread": per_thread}
+    acc.count("real_runs")
+    acc.count("real:" + dispatcher_name)
+    # thread switches injected at statement boundaries of the dispatchers and of asyncore itself (never inside a lock of ours)
+    yp = r.choice([0.0, 0.1, 0.3, 0.5, 0.5])
+    yi = inject.YieldInjector(random.Random(r.randrange(1 << 30)), ("dispatcher_asyncore.py", "dispatcher_socket.py", "asyncore/__init__.py", "network/layer.py"), p=yp) if yp else None
+    if yi:
+        yi.__enter__()
+    w["yield_p"] = yp
+    try:
+        c.start_loop()
+        c.connect_async()
+        def wire_diff():
+            """bytes handed to the network layer (probe directly above it) against the bytes the peer's socket read"""
+            want = b"".join(bytes(x) for x in list(c.probe_low.sent))
+            got = bytes(srv.conns[0].raw) if srv.conns else b""
+            if want == got:
+                return None
+            n = min(len(want), len(got))
+            i = next((k for k in range(n) if want[k] != got[k]), n)
+            return "handed to the network layer %d bytes, socket carried %d; first difference at offset %d" % (len(want), len(got), i)
+        if not c.wait(lambda: c.events(YowAuthenticationProtocolLayer.EVENT_AUTHED) >= 1, 20):
+            d_ = wire_diff()
+            if d_ and c.events(YowNetworkLayer.EVENT_STATE_DISCONNECTED) == 0:
+                acc.violation("real:wire-differs-at-login:%s" % dispatcher_name, "during the handshake (handshake thread and %s loop both write) the socket did not carry the bytes "
+                              "the stack wrote: %s; server state %s" % (dispatcher_name, d_, [x.srv.state for x in srv.conns]), w)
+                return
+            acc.inconc("%s: login over loopback did not complete (server %s)" % (tag, [x.srv.state for x in srv.conns]))
+            return
+        conn = srv.conns[0]
+        base = len(conn.stanzas)
+        sent = {}
+        errors = []
+        lock = threading.Lock()
+
+        def sender(name, rr):
+            for i in range(per_thread):
+                sid = "%s-%d" % (name, i)
+                with lock:
+                    sent[sid] = name
+                try:
+                    c.app.toLower(BlobIq(payload_node(rr, sid)))
+                except Exception as e:  # noqa
+                    errors.append((name, type(e).__name__, str(e)[:200]))
+                    return
+        ths = [threading.Thread(target=sender, args=("r%d" % k, random.Random(r.randrange(1 << 30))), name="verif-rsender-%d" % k) for k in range(nthreads)]
+        for t in ths:
+            t.start()
+        for t in ths:
+            t.join(60)
+        if any(t.is_alive() for t in ths):
+            acc.inconc("%s: senders still running after 60 s" % tag)
+            return
+        if errors:
+            acc.violation("real:send-raises:%s:%s" % (dispatcher_name, errors[0][1]), "a sender got %s: %s" % (errors[0][1], errors[0][2]), w)
+            return
+        def all_in():
+            ids = set(t[1].get("id") for t in conn.stanzas[base:])
+            return all(s_ in ids for s_ in sent)
+        c.wait(lambda: conn.srv.state == "error" or all_in(), 30)
+        acc.count("stanzas_sent", len(sent))
+        if conn.srv.state == "error":
+            acc.violation("real:stream-corrupt:%s" % dispatcher_name, "the byte stream at the socket cannot be parsed/decrypted in counter order: %s" % conn.srv.errors, w)
+            return
+        seen = {}
+        for t in conn.stanzas[base:]:
+            seen[t[1].get("id")] = seen.get(t[1].get("id"), 0) + 1
+        dup = [s_ for s_, n in seen.items() if n > 1]
+        lost = [s_ for s_ in sent if s_ not in seen]
+        if dup or lost:
+            acc.violation("real:exactly-once:%s:%s" % (dispatcher_name, "dup" if dup else "lost"), "over the real %s dispatcher stanzas were transmitted not exactly once: duplicated %s, lost %s (of %d)"
+                          % (dispatcher_name, dup[:3], lost[:3], len(sent)), w)
+            return
+        d_ = wire_diff()
+        if d_:
+            time.sleep(0.3)
+            d_ = wire_diff()
+        if d_:
+            acc.violation("real:wire-differs:%s" % dispatcher_name, "the socket did not carry exactly the bytes handed to the network layer: %s" % d_, w)
+            return
+        acc.count("wire_bytes_equal", len(srv.conns[0].raw))
+        acc.count("stanzas_decrypted", len(seen))
+        acc.case(["real", tag], nontrivial=True)
+        acc.count("real_ok")
+    finally:
+        try:
+            c.app.disconnect()
+        except Exception:
+            pass
+        c.stop_loop()
+        time.sleep(0.05)
+        srv.stop()
+        if yi:
+            yi.__exit__()
+            acc.count("real_yields", yi.yields)
+
+
 def make_desc(r):
     k = r.choice([2, 3, 4])
     entries = [r.choice(["top", "sendIq", "below-group"]) for _ in range(k)]
@@ -263,12 +375,22 @@ def make_desc(r):
 def shards(tier, seed, nworkers):
     q = tier == "quick"
     nsh = 6 if q else nworkers
-    return [{"kind": "runs", "shard": i, "n": (300 if q else 20000) // nsh} for i in range(nsh)]
+    specs = [{"kind": "runs", "shard": i, "n": (300 if q else 20000) // nsh} for i in range(nsh)]
+    for dname in ("socket", "asyncore"):
+        for k in range(1 if q else 8):
+            specs.append({"kind": "real", "dispatcher": dname, "rep": k, "n": 12 if q else 60})
+    return specs
 
 
 def run(spec, acc):
     from vf import env
     env.shim_thirdparty()
+    if spec["kind"] == "real":
+        for i in range(spec["n"]):
+            r = gen.rng(spec["seed"], ID, "real/%s/%d/%d" % (spec["dispatcher"], spec["rep"], i))
+            real_run(acc, spec["seed"], "real/%s/%d/%d" % (spec["dispatcher"], spec["rep"], i), spec["dispatcher"], r.choice([2, 3, 4]), r.choice([10, 25]))
+        acc.sample({"real_dispatcher": spec["dispatcher"], "runs": spec["n"]})
+        return
     for i in range(spec["n"]):
         tag = "run/%d/%d" % (spec["shard"], i)
         r = gen.rng(spec["seed"], ID, tag + "/d")
